@@ -161,14 +161,17 @@ func VHRestore() {
 	if snapAfter {
 		for _, name := range []string{"n0", "n1", "n2", "zz"} {
 			want := c.visits[name]
-			if want > 0 && name != "zz" && !w.tracked(name) {
-				continue // a count for a node that is never tracked: no history produces it, no reading imposed
+			// (a count for a node that is never tracked: no history produces it, no reading imposed; decided inside
+			// the obligation rather than by a branch, so that it does not multiply the paths)
+			skip := false
+			if name != "zz" {
+				skip = vAnd(want > 0, !w.tracked(name))
 			}
 			for _, r := range []*DialogueRunner{dr, dr2} {
 				cnt, vis := vScriptVisits(r, name)
 				ci, exact := vExactInt(cnt)
-				vAssert(exact && ci == want, "after a restore visited_count reports the snapshot's count")
-				vAssert(vis == (want > 0), "after a restore visited reports whether the snapshot's count is positive")
+				vAssert(vOr(skip, vAnd(exact, ci == want)), "after a restore visited_count reports the snapshot's count")
+				vAssert(vOr(skip, vis == (want > 0)), "after a restore visited reports whether the snapshot's count is positive")
 			}
 		}
 		vReach("visit-functions-after-restore")
